@@ -265,7 +265,7 @@ func verif_handlePing(ctl *Control, m msg.Message) {
 // run id is refused; nothing the visitor sends can choose the user.
 //
 //verif:contract (*~/server.Service).RegisterVisitorConn
-//verif:props C08 C16
+//verif:props C08 C16 C01
 func verif_RegisterVisitorConn(svr *Service, visitorConn net.Conn, newMsg *msg.NewVisitorConn) {
 	runID := newMsg.RunID
 	ctl0, ok0 := svr.ctlManager.ctlsByRunID[runID]
@@ -358,7 +358,7 @@ func verif_RegisterProxy(ctl *Control, pxyMsg *msg.NewProxy) {
 // and quota released.
 //
 //verif:contract (*~/server.Control).CloseProxy
-//verif:props C10 C12 C15
+//verif:props C10 C12 C15 C09
 func verif_CloseProxy(ctl *Control, closeMsg *msg.CloseProxy) {
 	pxy0, own := ctl.proxies[closeMsg.ProxyName]
 	maxp := int(ctl.serverCfg.MaxPortsPerClient)
@@ -439,6 +439,11 @@ func verif_GetWorkConn(ctl *Control) {
 		// (the caller dereferences the connection in a goroutine of its own)
 		verif.Ensures(verif.RetBool("recv:H.server.Control.workConnCh", 0), "closed_pool_is_an_error_never_a_nil_connection")
 		verif.Ensures(verif.CallCount(evSend) >= 1 && verif.CallCount(evSend) <= 2, "taken_connection_is_replaced")
+	} else {
+		// "bounded pool": a replacement is requested only for a connection that
+		// was taken; an attempt that fails asked at most once (for the one
+		// connection it then waited for in vain)
+		verif.Ensures(verif.CallCount(evSend) <= 1, "failed_attempt_requests_no_replacement")
 	}
 	_ = wc
 }
@@ -780,6 +785,27 @@ func verifAcceptStep(l net.Listener) bool {
 		return verif.CalledWithInIter("ContextConn).Close", 0, verif.IterRet[*netpkg.ContextConn]("net.NewContextConn", 0)) && !verif.CalledInIter("go:")
 	}
 	return verif.CalledInIter("go:") && !verif.CalledInIter("Conn).Close")
+}
+
+// The goroutine HandleListener starts per accepted connection (C04: "the token
+// check is waived only for connections that originate inside the process"):
+// whether the connection is served directly or as a tcp-mux session, its
+// handler is told exactly what the listener it came from is - internal or
+// not -, never a constant.
+//
+//verif:contract (*~/server.Service).HandleListener$1
+//verif:props C04 C05
+//verif:kinds post
+func verif_Service_HandleListener_conn(ctx context.Context, frpConn net.Conn) {
+	internal := verif.FreeVar[bool]("internal")
+	verif.ResetEvents()
+	verif.CallTarget(ctx, frpConn)
+	const evH, evGo = "Service).handleConnection", "go:(*github.com/fatedier/frp/server.Service).handleConnection"
+	if verif.Called(evGo) {
+		verif.Ensures(verif.CallCountWith(evGo, 3, internal) == verif.CallCount(evGo), "mux_streams_inherit_the_listeners_origin")
+	} else if verif.Called(evH) {
+		verif.Ensures(verif.CallCountWith(evH, 3, internal) == verif.CallCount(evH), "connection_keeps_the_listeners_origin")
+	}
 }
 
 //verif:contract (*~/server.Service).HandleListener
